@@ -8,7 +8,8 @@ DRV=/verif/driver/target/debug/skv-facts
 [ -x "$DRV" ] || { echo "driver not built: run setup" >&2; exit 2; }
 mkdir -p "$TGT" "$(dirname "$OUT")"
 rm -f "$OUT"
-rm -rf "$TGT"/debug/.fingerprint/surrealkv-* "$TGT"/debug/deps/libsurrealkv-* "$TGT"/debug/deps/surrealkv-* 2>/dev/null || true
+CR="${SKV_FACTS_CRATE:-surrealkv}"
+rm -rf "$TGT"/debug/.fingerprint/${CR}-* "$TGT"/debug/deps/lib${CR}-* "$TGT"/debug/deps/${CR}-* 2>/dev/null || true
 SYSROOT=$(rustc +nightly --print sysroot)
 cd "$REPO"
 LD_LIBRARY_PATH="$SYSROOT/lib" CARGO_NET_OFFLINE=true \
